@@ -818,10 +818,23 @@ def _decl_then_assign(stmts):
     return out
 
 
+def _pure_value(e):
+    """arithmetic over variables, members, literals and casts only: no call, no assignment, no ++ / --, no allocation"""
+    bad = [False]
+
+    def v(n):
+        if n.get("k") in ("Call", "OpCall", "Assign", "New", "Delete", "Throw", "Lambda", "Construct") or (n.get("k") == "Un" and n.get("op") in ("++", "--")):
+            bad[0] = True
+        if n.get("k") == "Bin" and n.get("op") in ("/", "%"):
+            bad[0] = True      # may trap
+    _walk(e, v)
+    return not bad[0]
+
+
 def _decl_then_override(stmts):
-    """S14: `T x = a; if (c) x = b;`  ->  `T x = c ? b : a;`   (a a plain read, c not reading x)"""
-    if LIGHT[0]:
-        return stmts
+    """S14: `T x = a; if (c) x = b;`  ->  `T x = c ? b : a;`   (a a pure value: evaluating it only in one arm changes nothing; c not
+    reading x).  Also in the light view: the byte-level interpreters relate a size check and a loop bound through the one selecting
+    expression, which a default-then-override spelling would hide in a join."""
     out = []
     i = 0
     while i < len(stmts):
@@ -832,13 +845,19 @@ def _decl_then_override(stmts):
             v = s["vars"][0]
             tb = _stmts(nxt.get("t"))
             ini = _strip(v["init"])
-            plain = isinstance(ini, dict) and (ini.get("k") in ("Int", "Bool", "Float", "Ref") or (ini.get("k") == "Member" and _pure_container(ini)) or "v" in ini)
+            plain = isinstance(ini, dict) and (ini.get("k") in ("Int", "Bool", "Float", "Ref") or (ini.get("k") == "Member" and _pure_container(ini)) or "v" in ini or _pure_value(ini))
             if plain and len(tb) == 1 and isinstance(tb[0], dict) and tb[0].get("k") == "Expr":
                 a = _strip(tb[0].get("e"))
                 if isinstance(a, dict) and a.get("k") == "Assign" and a.get("op") == "=" and isinstance(_strip(a.get("l")), dict) and _strip(a["l"]).get("k") == "Ref" \
-                        and _strip(a["l"]).get("d") == v["d"] and not _refs_to(nxt["c"], v["d"]) and not _refs_to(a["r"], v["d"]):
+                        and _strip(a["l"]).get("d") == v["d"] and (not _refs_to(nxt["c"], v["d"]) or _pure_value(ini)) and not _refs_to(a["r"], v["d"]):
                     v2 = dict(v)
-                    v2["init"] = {"k": "Cond", "c": nxt["c"], "a": a["r"], "e": v["init"], "loc": nxt.get("loc"), "t": v.get("t"), "sz": v.get("sz"), "synth": True}
+                    cc, aa, ee = nxt["c"], a["r"], v["init"]
+                    if _refs_to(cc, v["d"]):
+                        cc = _subst_ref(cc, v["d"], v["init"])      # the test reads the initial value: `T x = a; if (x < K) x = b;`
+                    sc = _strip(cc)
+                    if isinstance(sc, dict) and sc.get("k") == "Un" and sc.get("op") == "!":
+                        cc, aa, ee = sc["e"], ee, aa      # !c ? b : a  ==  c ? a : b
+                    v2["init"] = {"k": "Cond", "c": cc, "a": aa, "e": ee, "loc": nxt.get("loc"), "t": v.get("t"), "sz": v.get("sz"), "synth": True}
                     out.append(dict(s, vars=[v2]))
                     i += 2
                     continue
